@@ -94,6 +94,16 @@ def handleA (st : St) (n : Nat) (toks : List String) : Result := Id.run do
       if iclient != "skip" && iclient != "notexist" && istatus == 404 then
         let f := fail st n "C16" s!"the bundled client did not map 404 to 'does not exist' ({iclient.take 30})"
         st := f.st; outs := outs ++ f.out
+  else if kind == "racedget" then
+    let acc := (get "accepted").getD "-"
+    let ibody := (get "body").getD "?"
+    st := st.bump "api.racedget"
+    if acc != "-" && ibody != acc then
+      let f := fail st n "C16" s!"a GET issued after an accepted update had returned was not served that update's checkpoint (another read of the same log was still in flight{if (get "late").getD "0" == "1" then "; the GET was answered only when that read finished" else ""})"
+      st := f.st; outs := outs ++ f.out
+    else
+      st := { st with nOK := st.nOK + 1 }
+      outs := [s!"OK {n}"]
   else if kind == "down" then
     let ic := (get "client").getD "?"
     st := st.bump s!"api.down.{ic.take 5}"
